@@ -281,6 +281,19 @@ theorem C10m_fosm_agrees (T : Model ℝ) (mu sigma c : Vec ℝ) (d : ℝ)
     simp [hj]
   rw [this]; ring
 
+/-- **the design point of the constrained formulation (`coptFORM`: minimise `‖u‖` subject to `G(u) = 0`) is the
+same point**: on the affine limit state `G(u) = b + ⟨u, w⟩` every feasible `u` is at least as far from the
+origin as `uStar`, whose distance is `|betaStar|` — so the two FORM algorithms agree on linear-Gaussian problems -/
+theorem C10m_affine_copt (T : Model ℝ) (mu sigma c : Vec ℝ) (d : ℝ) (hw : norm T.dim (wOf T sigma c) ≠ 0) (u : Vec ℝ)
+    (hfeas : (d + dot T.dim c mu) + dot T.dim u (wOf T sigma c) = 0) :
+    |betaStar T mu sigma c d| ≤ norm T.dim u ∧ norm T.dim (uStar T mu sigma c d) = |betaStar T mu sigma c d| := by
+  have hpos : 0 < norm T.dim (wOf T sigma c) := lt_of_le_of_ne (norm_nonneg _ _) (Ne.symm hw)
+  refine ⟨?_, norm_smul_div T.dim _ _ hw⟩
+  have hb : d + dot T.dim c mu = -dot T.dim u (wOf T sigma c) := by linarith
+  unfold betaStar
+  rw [hb, abs_div, abs_neg, abs_of_pos hpos, div_le_iff₀ hpos]
+  exact abs_dot_le _ _ _
+
 /-- non-vacuity: two independent standard normal variables, `g = 3 - x₀ - x₁`: the loop returns `β = 3/√2` -/
 example : ∃ T : Model ℝ, AllNormal T (fun _ => 0) (fun _ => 1) ∧ T.dim = 2 ∧
     betaStar T (fun _ => 0) (fun _ => 1) (fun _ => -1) 3 = 3 / Real.sqrt 2 := by
